@@ -192,7 +192,7 @@ def _bil_events(rec, bu, bv, Bu, Bv, acc_u, acc_v, ctxu, forms, full, tags):
                     cases = [(u['re'], v, np.real(s)), (u['im'], v, np.imag(s))]
                 for (uu, vv, sv) in cases:
                     fem.guard_sum([t[2] for t in ev['A']['trip']], max(map(abs, uu), default=0) * max(map(abs, vv), default=0))
-                    si = _ints(sv, Sp)
+                    si = _ints(sv, Sp) if np.ndim(sv) == 0 else None        # a non-scalar value is judged by EntriesIntegral
                     ok &= si is not None
                     ev['pairs'].append({'u': [int(x) for x in uu], 'v': [int(x) for x in vv], 's': int(si or 0)})
             ev['exact'] = 1 if ok else 0
@@ -246,7 +246,7 @@ def _lin_events(rec, bv, Bv, acc_v, ctxv, forms, full, tags):
                 cases = [(v, _part(s, part))] if k < len(lp) else [(v['re'], np.real(s)), (v['im'], np.imag(s))]
                 for (vv, sv) in cases:
                     fem.guard_sum(ev['b'], max(map(abs, vv), default=0))
-                    si = _ints(sv, S)
+                    si = _ints(sv, S) if np.ndim(sv) == 0 else None
                     ok &= si is not None
                     ev['pairs'].append({'v': [int(x) for x in vv], 's': int(si or 0)})
             ev['exact'] = 1 if ok else 0
